@@ -331,24 +331,26 @@ add(
 # ================= SMT over the compiler's MIR (smt/): table-driven float construction ===========
 # crate "smt": decided by z3/cvc5 on linear integer arithmetic generated from `rustc -Zunpretty=mir`
 # of the scratch copy; `args` go to smt/float_check.py
-SMT_FUNCS = ["sonic_number::parse_float (guards, sign, routing)", "sonic_number::parse_floating_normal_fast", "sonic_number::lemire::full_multiplication",
-             "POWER_OF_FIVE_128 (from the compiler's allocation dump)"]
-SMT_CUTS = ["opaque (paths through them are outside the claim and counted): parse_float_fast, lemire::compute_float, slow::parse_long_mantissa, biased_fp_to_float, f64::is_infinite",
-            "assumption: 1 <= significand < 10^19 (what parse_number passes when no digit was truncated)",
+SMT_FUNCS = ["sonic_number::parse_float (guards, sign, routing, finiteness check)", "sonic_number::parse_floating_normal_fast", "sonic_number::lemire::full_multiplication",
+             "sonic_number::lemire::compute_float::<f64> (Eisel-Lemire) for exponents >= -290", "lemire::compute_product_approx", "lemire::power", "BiasedFp::zero_pow2",
+             "sonic_number::biased_fp_to_float::<f64>", "POWER_OF_FIVE_128 (from the compiler's allocation dump)", "impl RawFloat for f64 (associated constants, from the MIR)"]
+SMT_CUTS = ["opaque (paths through them are outside the claim and counted): parse_float_fast (f64 arithmetic), slow::parse_long_mantissa, compute_float for exponents < -290 (subnormal results)",
+            "assumption: 1 <= significand < 10^19 and trunc == false (what parse_number passes when no digit was dropped)",
             "model: x << leading_zeros(x) as a fresh normalised n with lz free (over-approximation); counterexamples are made exact by pinning lz before replay",
             "dev-profile overflow assertion at `add + 1` (parse_floating_normal_fast bb23) is not decided by either solver and is not claimed"]
 _b = ",".join(str(e) for e in list(range(-312, -299)) + list(range(280, 296)))
-_s = ",".join(str(e) for e in sorted(set(range(-344, 346, 8)) | set(range(-10, 31))))
+_s = ",".join(str(e) for e in sorted(set(range(-344, 346, 16)) | set(range(-6, 25))))
+_L = "--lemire=-290..345"
 add(
     H("s_float_fast_bounds", "smt", ["C02", "C07", "C08"], SMT_FUNCS,
-      "decimal exponents -312..=-300 and 280..=295 (both ends of the guard) x every significand 1 <= w < 10^19 x sign x trunc; 20 s per query",
-      stubs=SMT_CUTS, args=["float_check.py", "--exps=" + _b, "--jobs", "6", "--timeout-ms", "20000"], cost=60, timeout=800),
+      "decimal exponents -312..=-300 and 280..=295 (both ends of the table-product guard) x every significand 1 <= w < 10^19 x sign; 20 s per query",
+      stubs=SMT_CUTS, args=["float_check.py", "--exps=" + _b, _L, "--jobs", "6", "--timeout-ms", "20000"], cost=150, timeout=850),
     H("s_float_fast_sampled", "smt", ["C07", "C08"], SMT_FUNCS,
-      "every 8th decimal exponent in -344..=344 and all of -10..=30 x every significand 1 <= w < 10^19 x sign x trunc; 20 s per query",
-      stubs=SMT_CUTS, args=["float_check.py", "--exps=" + _s, "--jobs", "8", "--timeout-ms", "20000"], cost=150, timeout=850),
+      "every 16th decimal exponent in -344..=344 and all of -6..=24 x every significand 1 <= w < 10^19 x sign; 20 s per query",
+      stubs=SMT_CUTS, args=["float_check.py", "--exps=" + _s, _L, "--jobs", "8", "--timeout-ms", "20000"], cost=250, timeout=850),
     H("s_float_fast_all", "smt", ["C02", "C07", "C08"], SMT_FUNCS,
-      "every decimal exponent in -345..=345 x every significand 1 <= w < 10^19 x sign x trunc; 120 s per query",
-      stubs=SMT_CUTS, args=["float_check.py", "--emin", "-345", "--emax", "345", "--jobs", "14", "--timeout-ms", "120000"], tier=T, cost=600, timeout=5400),
+      "every decimal exponent in -345..=345 x every significand 1 <= w < 10^19 x sign; 120 s per query",
+      stubs=SMT_CUTS, args=["float_check.py", "--emin", "-345", "--emax", "345", _L, "--jobs", "14", "--timeout-ms", "120000"], tier=T, cost=1800, timeout=7200),
     H("s_simd_str2int", "smt", ["C07", "C17"], ["sonic_number::arch::x86_64::simd_str2int (the SSE digit reader selected with avx2+pclmulqdq, i.e. by /repo's target-cpu=native)",
                                                "macros packadd_1/2/4, simd_add_5_8, simd_add_9_15, simd_add_16"],
       "need 1..=16 x position 1..=16 of the first non-digit (16 = none) x its class (three byte ranges) x every value of all 16 bytes; result == (decimal value of the first min(need, p) digits, min(need, p))",
